@@ -63,40 +63,51 @@ func RunLocaPair(w *World, r *Report) {
 			return true
 		}
 		be, ok := ifs.Cond.(*ast.BinaryExpr)
-		if !ok || (be.Op != token.LEQ && be.Op != token.LSS) {
+		if !ok {
 			return true
 		}
 		t, ok := constInt(info, be.Y)
 		if !ok {
 			return true
 		}
+		// the branch taken for last offsets up to maxShort, and the other one
+		var bounded, unbounded ast.Node
+		var maxShort int64
+		switch be.Op {
+		case token.LEQ:
+			bounded, unbounded, maxShort = ifs.Body, ifs.Else, t
+		case token.LSS:
+			bounded, unbounded, maxShort = ifs.Body, ifs.Else, t-1
+		case token.GTR:
+			bounded, unbounded, maxShort = ifs.Else, ifs.Body, t
+		case token.GEQ:
+			bounded, unbounded, maxShort = ifs.Else, ifs.Body, t-1
+		default:
+			return true
+		}
 		found = true
-		limit := int64(0x1FFFE)
-		if be.Op == token.LSS {
-			limit = 0x1FFFF
+		if bounded == nil || bounded == ast.Node((*ast.BlockStmt)(nil)) || unbounded == nil {
+			problems = append(problems, "no long-format branch")
+			return true
 		}
-		if t > limit {
-			problems = append(problems, fmt.Sprintf("short format chosen for last offsets up to %#x, but offset/2 must fit 16 bits (limit %#x)", t, limit))
+		if maxShort > 0x1FFFE {
+			problems = append(problems, fmt.Sprintf("short format chosen for last offsets up to %#x, but offset/2 must fit 16 bits (limit %#x)", maxShort, 0x1FFFE))
 		}
-		if f, ok := formatAssigned(ifs.Body); !ok || f != 0 {
+		if f, ok := formatAssigned(bounded); !ok || f != 0 {
 			problems = append(problems, "the bounded branch does not announce format 0")
 		} else {
 			formats[f] = true
 		}
-		if !hasScale(ifs.Body, "/2", ">>1") {
+		if !hasScale(bounded, "/2", ">>1") {
 			problems = append(problems, "the format-0 branch does not store offset/2")
 		}
-		if ifs.Else != nil {
-			if f, ok := formatAssigned(ifs.Else); !ok || f != 1 {
-				problems = append(problems, "the unbounded branch does not announce format 1")
-			} else {
-				formats[f] = true
-			}
-			if hasScale(ifs.Else, "/2", ">>1") {
-				problems = append(problems, "the format-1 branch scales the offsets")
-			}
+		if f, ok := formatAssigned(unbounded); !ok || f != 1 {
+			problems = append(problems, "the unbounded branch does not announce format 1")
 		} else {
-			problems = append(problems, "no long-format branch")
+			formats[f] = true
+		}
+		if hasScale(unbounded, "/2", ">>1") {
+			problems = append(problems, "the format-1 branch scales the offsets")
 		}
 		return true
 	})
